@@ -309,7 +309,10 @@ def run_creation(case: dict, root: str, *, sim_kwargs: dict | None = None, trace
         source = wl.TracedFrame(df, trace) if src_kind == "traced" else df
     elif src_kind in ("fits", "hdf5", "parquet"):
         source = os.path.join(root, "input" + wl.SOURCE_EXT[src_kind])
-        wl.write_source(src_kind, source, rec_f, pids_f, pq_seed=d["data_seed"], pq_rowgroup=case.get("pq_rowgroup"))
+        fits_hdu = int(case.get("fits_hdu") or 1) if src_kind == "fits" else 1
+        wl.write_source(src_kind, source, rec_f, pids_f, pq_seed=d["data_seed"], pq_rowgroup=case.get("pq_rowgroup"), fits_hdu=fits_hdu)
+        if fits_hdu > 1:
+            kw["hdu"] = fits_hdu  # rarely supplied reader option: the table is not in the first extension
         if kind == "len_mismatch" and src_kind == "hdf5":
             import h5py
 
